@@ -22,6 +22,7 @@ import (
 	"strings"
 	"sync"
 	"sync/atomic"
+	"syscall"
 	"time"
 
 	"reservoir/config"
@@ -389,6 +390,60 @@ func runC10x(r *emit.Rand) {
 		}
 		c.Close()
 	}
+	// an upload well beyond any header budget (1.2 MiB, sized and chunked), then another exchange on the same tunnel
+	for i, chunkedUp := range []bool{false, true} {
+		c, _, err := env.DialTunnel(env.Origin.Addr, "127.0.0.1", 8*time.Second)
+		if err != nil {
+			panic(err)
+		}
+		payload := bytes.Repeat([]byte("upload-0123456789;"), 70000) // 1.26 MB
+		p1 := fmt.Sprintf("/bigput-%d/a1", i)
+		p2 := fmt.Sprintf("/bigput-%d/b2", i)
+		var raw bytes.Buffer
+		if chunkedUp {
+			fmt.Fprintf(&raw, "PUT %s HTTP/1.1\r\nHost: %s\r\nTransfer-Encoding: chunked\r\n\r\n", p1, env.Origin.Addr)
+			for off := 0; off < len(payload); off += 60000 {
+				end := off + 60000
+				if end > len(payload) {
+					end = len(payload)
+				}
+				fmt.Fprintf(&raw, "%x\r\n", end-off)
+				raw.Write(payload[off:end])
+				raw.WriteString("\r\n")
+			}
+			raw.WriteString("0\r\n\r\n")
+		} else {
+			fmt.Fprintf(&raw, "PUT %s HTTP/1.1\r\nHost: %s\r\nContent-Length: %d\r\n\r\n", p1, env.Origin.Addr, len(payload))
+			raw.Write(payload)
+		}
+		env.Origin.ResetLog()
+		c.Send(raw.Bytes(), 10*time.Second)
+		total++
+		dist["large-upload-then-next"]++
+		det := map[string]any{"first": fmt.Sprintf("PUT %s with a %d-byte body", p1, len(payload)), "chunked_upload": chunkedUp, "second": "GET " + p2}
+		r1, err1 := c.Read("PUT", 10*time.Second)
+		got := -1
+		for _, lr := range env.Origin.Log() {
+			if lr.Method == "PUT" {
+				got = len(lr.Body)
+			}
+		}
+		det["origin_received_body_bytes"] = got
+		switch {
+		case err1 != nil:
+			fail("large-upload-then-next", det, "a large upload inside a tunnel got no response: "+err1.Error())
+		case r1.Status != 200 || got != len(payload):
+			det["status"] = r1.Status
+			fail("large-upload-then-next", det, "a large upload inside a tunnel did not reach the origin completely")
+		case !r1.Close:
+			c.Send(env.TunnelRequest("GET", p2, nil, nil), 5*time.Second)
+			r2, err2 := c.Read("GET", 5*time.Second)
+			if err2 != nil || !strings.HasPrefix(string(r2.Body), "target="+p2+";") {
+				fail("large-upload-then-next", det, "the exchange after a large upload on the same tunnel did not get its own answer")
+			}
+		}
+		c.Close()
+	}
 	// Expect: 100-continue with a body, answered with a body of unknown length, then another exchange on the same tunnel
 	for i, chunkedAnswer := range []bool{true, false} {
 		c, _, err := env.DialTunnel(env.Origin.Addr, "127.0.0.1", 8*time.Second)
@@ -744,9 +799,121 @@ func cacheDirGone() {
 	}
 }
 
+// budgetZero: the memory cache with a memory budget of 0 % (allowed by the configuration check), set at start or changed
+// at run time: nothing can be stored, every request is still answered with the origin's 200.
+func budgetZero() {
+	for _, atStart := range []bool{true, false} {
+		dir := filepath.Join(*flagOut, fmt.Sprintf("envbz-%v", atStart))
+		env, err := e2elib.Start(e2elib.Options{Backend: "memory", Dir: dir, Tune: func(cfg *config.Config) {
+			if atStart {
+				cfg.Cache.Memory.MemoryBudgetPercent.Overwrite(0)
+			}
+		}})
+		if err != nil {
+			panic(err)
+		}
+		env.Origin.SetHandler(func(req e2elib.OriginRequest, k int) e2elib.Answer {
+			return e2elib.NewAnswer(200, []byte("T="+req.Target+";"+strings.Repeat("z", 300)), "Cache-Control: max-age=600")
+		})
+		get := func(path string) (*e2elib.Response, error) {
+			return env.DoPlain(env.PlainRequest("GET", path, nil, nil), "GET", 4*time.Second)
+		}
+		if !atStart {
+			get("/bz-before")
+			if _, err := config.UpdatePartialFromConfig(env.Cfg, map[string]any{"cache": map[string]any{"memory": map[string]any{"memory_budget_percent": 0}}}); err != nil {
+				env.Cfg.Cache.Memory.MemoryBudgetPercent.Overwrite(0)
+			}
+			time.Sleep(20 * time.Millisecond) // the listener runs in its own goroutine
+		}
+		for i := 0; i < 4; i++ {
+			path := fmt.Sprintf("/bz%d", i%3)
+			resp, err := get(path)
+			total++
+			dist[fmt.Sprintf("memory-budget-zero/at_start=%v", atStart)]++
+			det := map[string]any{"memory_budget_percent": 0, "set_at_start": atStart, "request": path}
+			if err != nil {
+				fail("memory-budget-zero", det, "a request the origin answers fine got no response (dropped connection or hang): "+err.Error())
+				break
+			}
+			if resp.Status != 200 || !strings.HasPrefix(string(resp.Body), "T="+path+";") {
+				det["status"] = resp.Status
+				fail("memory-budget-zero", det, "the origin's good answer was not delivered")
+			}
+		}
+		env.Close()
+		os.RemoveAll(dir)
+	}
+}
+
+// otherFilesystem: the file cache's directory lives on another filesystem than the system temp directory (a data disk
+// next to a tmpfs /tmp): N simultaneous identical GETs still cause one origin fetch and the answer is stored.
+func otherFilesystem() {
+	shm := "/dev/shm"
+	var a, b syscall.Stat_t
+	if syscall.Stat(shm, &a) != nil || syscall.Stat(os.TempDir(), &b) != nil || a.Dev == b.Dev {
+		dist["cache-dir-other-filesystem/skipped (no second filesystem)"]++
+		return
+	}
+	dir, err := os.MkdirTemp(shm, "verif-c05x-")
+	if err != nil {
+		dist["cache-dir-other-filesystem/skipped (not writable)"]++
+		return
+	}
+	defer os.RemoveAll(dir)
+	env, err := e2elib.Start(e2elib.Options{Backend: "file", Dir: dir})
+	if err != nil {
+		panic(err)
+	}
+	env.Origin.SetHandler(func(req e2elib.OriginRequest, k int) e2elib.Answer {
+		time.Sleep(150 * time.Millisecond) // long enough for all clients to join the flight
+		return e2elib.NewAnswer(200, []byte("T="+req.Target+";"+strings.Repeat("x", 2000)), "Cache-Control: max-age=600")
+	})
+	env.Origin.ResetLog()
+	var wg sync.WaitGroup
+	bad := 0
+	var mu sync.Mutex
+	for i := 0; i < 6; i++ {
+		wg.Add(1)
+		go func() {
+			defer wg.Done()
+			resp, err := env.DoPlain(env.PlainRequest("GET", "/shared", nil, nil), "GET", 8*time.Second)
+			if err != nil || resp.Status != 200 || !strings.HasPrefix(string(resp.Body), "T=/shared;") {
+				mu.Lock()
+				bad++
+				mu.Unlock()
+			}
+		}()
+	}
+	wg.Wait()
+	fetches := env.Origin.Count()
+	resp, err := env.DoPlain(env.PlainRequest("GET", "/shared", nil, nil), "GET", 8*time.Second)
+	total++
+	dist["cache-dir-other-filesystem"]++
+	det := map[string]any{"cache_dir": dir, "temp_dir": os.TempDir(), "simultaneous_clients": 6, "origin_fetches": fetches}
+	switch {
+	case bad > 0:
+		fail("cache-dir-other-filesystem", det, fmt.Sprintf("%d of 6 clients did not get the complete answer", bad))
+	case fetches != 1:
+		fail("cache-dir-other-filesystem", det, fmt.Sprintf("6 simultaneous identical GETs caused %d origin fetches", fetches))
+	case err != nil || resp.Header.Get("X-Cache") != "HIT":
+		xc := ""
+		if resp != nil {
+			xc = resp.Header.Get("X-Cache")
+		}
+		det["x_cache_of_the_next_request"] = xc
+		fail("cache-dir-other-filesystem", det, "the shared answer was not stored: the next request is no hit")
+	}
+	env.Close()
+}
+
+func runC05x(r *emit.Rand) {
+	otherFilesystem()
+}
+
 func runC09x(r *emit.Rand) {
 	hangupC09x()
 	cacheDirGone()
+	budgetZero()
 	for _, shards := range []int{1, 2, 32} {
 		dir := filepath.Join(*flagOut, fmt.Sprintf("envx%d", shards))
 		env, err := e2elib.Start(e2elib.Options{Backend: "file", Dir: dir, Shards: shards, Tune: func(cfg *config.Config) {
@@ -820,9 +987,12 @@ func main() {
 	case "C06x":
 		runC06x(r)
 		rule = "the proxy stores version 1, the origin moves to version 2 (honouring conditionals), a client sends a Range request carrying If-None-Match / If-Modified-Since of version 2 (entry fresh or stale): no client conditional value reaches the origin, and version 1 is not served as a fresh hit afterwards; x backends x plain/CONNECT"
+	case "C05x":
+		runC05x(r)
+		rule = "file cache whose directory is on another filesystem than the system temp directory (/dev/shm against os.TempDir(); skipped when there is no second writable filesystem): 6 simultaneous identical GETs cause one origin fetch, every client gets the complete answer and the next request is a hit"
 	case "C09x":
 		runC09x(r)
-		rule = "file backend at its 1 kB limit whose stored files cannot be removed (turned into non-empty directories), shards 1/2/32: 12 further requests to a healthy origin must each be answered with the origin's 200 within 4 s"
+		rule = "file backend at its 1 kB limit whose stored files cannot be removed (turned into non-empty directories), shards 1/2/32: 12 further requests to a healthy origin must each be answered with the origin's 200 within 4 s; the client whose fetch is in flight hangs up (cold and stale key); the cache directory removed / replaced by a dangling link / by a regular file; memory budget 0 % at start and set at run time"
 	case "C10x":
 		runC10x(r)
 		rule = "2-6 requests (GET/HEAD/Range, sized, chunked and non-storable answers, repeated targets) written in ONE write on a CONNECT tunnel: each must be answered, in order, with status, X-Target and body equal to what the same request gets on a tunnel of its own"
